@@ -5,6 +5,7 @@ import (
 	"sort"
 
 	"src.elv.sh/pkg/eval"
+	"src.elv.sh/pkg/eval/errs"
 	"src.elv.sh/pkg/eval/vals"
 	"src.elv.sh/pkg/parse"
 	"src.elv.sh/pkg/ui"
@@ -89,6 +90,9 @@ func (bt bindingsMap) Dissoc(k any) any {
 }
 
 func makeBindingMap(raw vals.Map) (bindingsMap, error) {
+	if raw == nil {
+		return emptyBindingsMap, errs.BadValue{What: "argument to edit:binding-table", Valid: "map", Actual: "$nil"}
+	}
 	converted := vals.EmptyMap
 	for it := raw.Iterator(); it.HasElem(); it.Next() {
 		k, v := it.Elem()
